@@ -279,6 +279,8 @@ class AugmentedGraph(ADMG, AugmentedNodeMixin):
     def remove_node(self, n):
         if n in self.f_nodes:
             del self.graph["F-nodes"][n]
+        if n in self.s_nodes:
+            del self.graph["S-nodes"][n]
         return super().remove_node(n)
 
 
